@@ -27,6 +27,11 @@
   What a request does is a straight-line *request program* (`Instr`), produced by `compile` from a type graph
   following RecursiveRequestBus.send and the providers statement by statement.
 
+  A request may also FAIL: for a type no shape provider recognises (root node of kind `fail`) every `cached_call`
+  of the program raises CannotProvide, nothing is stored, and `SearchingRetort._facade_provide` raises
+  ProviderNotFoundError (`Sys.fails`, `stepRaise`, `Res.notFound`): the thread is finished without a loader and
+  without having touched anything shared.  (A request that fails half-way, below a model, is not modelled.)
+
   `Mode.byLoc` is the unrepaired FuncWrapper (stubs equal when their locations are equal), `Mode.byId` the
   repaired one (`fixes/C12-stub-identity.patch`: default identity comparison).
 
@@ -157,6 +162,7 @@ inductive Res where
   | stubChain      -- a stub bound to a stub (does not occur for compiled requests)
   | outOfFuel
   | dangling       -- reference to a non-existing object (does not occur)
+  | notFound       -- the request itself failed: `_facade_provide` raised ProviderNotFoundError (no loader, no call)
   deriving DecidableEq, Repr
 
 structure Thread where
@@ -178,6 +184,7 @@ inductive Label where
   | stubBind (t : Tid) (loc : Loc) (x : Nat) (r : Ref)
   | lcPut (t : Tid) (ty : TyId) (r : Ref)
   | call (t : Tid) (ty : TyId) (depth : Nat) (res : Res)
+  | notFound (t : Tid) (ty : TyId)
   | noop (t : Tid)
   deriving DecidableEq, Repr
 
@@ -186,6 +193,9 @@ structure Sys where
   mode : Mode
   /-- the request program of `get_loader(ty)` (a miss of the loader cache) -/
   body : TyId → List Instr
+  /-- the request for `ty` cannot be satisfied: when its program has run (every `cached_call` of it raised
+      CannotProvide) `_facade_provide` raises ProviderNotFoundError instead of returning a loader -/
+  fails : TyId → Bool
   /-- recursion fuel of `eval` -/
   fuel : Nat
 
@@ -349,6 +359,13 @@ def stepPut (s : State) (t : Tid) (th : Thread) : State :=
   emit (setThread { s with loaderCache := lcPut s.loaderCache th.ty r } t { th with phase := .call r })
     (.lcPut t th.ty r)
 
+/-- A request nobody can satisfy: `BasicRequestBus._send_inner` has run out of handlers, the `CannotProvide`
+    reaches `SearchingRetort._facade_provide`, which raises `ProviderNotFoundError`.  Thread-local: NOTHING shared
+    is touched - in particular the call cache and the loader cache keep every entry (other threads may sit between
+    `key in self._call_cache` and `self._call_cache[key]`).  The thread is finished; there is no loader to call. -/
+def stepRaise (s : State) (t : Tid) (th : Thread) : State :=
+  emit (setThread s t { th with phase := .done, result := some .notFound }) (.notFound t th.ty)
+
 /-- `loader(data)` -/
 def stepCall (sys : Sys) (s : State) (t : Tid) (th : Thread) (r : Ref) : State :=
   let res := eval s.heap s.stubs sys.fuel th.depth r
@@ -364,7 +381,7 @@ def step (sys : Sys) (s : State) (t : Tid) : State :=
       match (sys.body th.ty)[pc]? with
       | some ins => stepInstr sys s t th pc sub ins
       | none => emit (setThread s t { th with phase := .put }) (.noop t)
-    | .put => stepPut s t th
+    | .put => if sys.fails th.ty then stepRaise s t th else stepPut s t th
     | .call r => stepCall sys s t th r
     | .done => s
 
@@ -436,6 +453,14 @@ def unfold (G : Graph) : Nat → Nat → TyId → Res
       else seqRes (ty + 1) (nd.children.map (fun c => unfold G n (if nullable then d - 1 else d) (G.locTy c))) []
     | _ => .dangling
 
+/-- the request for `ty` fails as a whole: no shape provider recognises the type (`Kind.fail` at the root) -/
+def failsTy (G : Graph) (ty : TyId) : Bool := (G.node ty).kind == .fail
+
+/-- Specification of a whole request `retort.load(data, ty)`: ProviderNotFoundError for a type nobody can load,
+    otherwise the unfolding. -/
+def specRes (G : Graph) (n d : Nat) (ty : TyId) : Res :=
+  if failsTy G ty then .notFound else unfold G n d ty
+
 /-! ### static check of a request program (schedule independent)
 
   Abstract interpretation of the operand stack: every `cached_call` receives sub-loaders of the argument types of
@@ -469,6 +494,7 @@ def absRun (G : Graph) : List Instr → List Abs → Option (List Abs)
     | some st' => absRun G is st'
     | none => none
 
-def typed (G : Graph) (code : List Instr) (ty : TyId) : Bool := absRun G code [] == some [(ty, false)]
+def typed (G : Graph) (code : List Instr) (ty : TyId) : Bool :=
+  absRun G code [] == some (if failsTy G ty then [] else [(ty, false)])
 
 end Adaptix.Threads
